@@ -99,7 +99,7 @@ func (w *World) queryReach() *Reach {
 }
 
 func checkC19(w *World, r *Report) {
-	r.Explanation = "Structural clause of C19: (Q-1) from Query (call graph, including go-ethereum's callbacks into the scratch StateDBWrapper) no overlay method other than tree reads is called on a live ledger, no durable-write API of tm-db/iavl/go-ethereum is reachable, no in-memory controller state is written (only the receiver of the scratch wrapper), and the scratch wrapper is built from ImmutableStateAt with the immutable account handler; (Q-2) every ledger read in a query handler is a tree read (Read / IterateReadAllItems) on the value returned by ImmutableLedgerAt(h) with h data-dependent on the request height, and vm_call's state comes from ImmutableStateAt(h) likewise; (Q-3) RigoApp.Query maps height 0 to the last committed height and its dispatch lists exactly the paths the controllers handle; (Q-4) no version of any tree is ever deleted or overwritten anywhere in the module. (Q-5) every historical read is served from a tree object of its own (a fresh iavl tree on the ledger's database, loaded at exactly the requested version, a load error is returned) under a fresh empty overlay — an iavl tree object remembers what was the latest version when it was opened, so it must not be shared between requests (C18 L-3). (Q-6) no function reachable from Query reads a controller field that block execution writes (candidate lists, validator sets, counters, the executing block context …): answers come from the immutable ledgers at the requested height, not from the in-memory state of the block that happens to be executing; the one listed exception is the last committed block context that supplies the default height. (Q-7) what a block committed is what the controllers made of the store's answers: a sentinel error that callers recognise by identity is handed back as itself (C18 L-5). (Q-9) building the historical tree of a query and committing a version on the same database exclude each other through the finality ledger's own mutex (C18 L-7). (Q-8) the stake controller's `stakes` query collects its answer by one scan over all delegatee records of the requested height and by nothing else."
+	r.Explanation = "Structural clause of C19: (Q-1) from Query (call graph, including go-ethereum's callbacks into the scratch StateDBWrapper) no overlay method other than tree reads is called on a live ledger, no durable-write API of tm-db/iavl/go-ethereum is reachable, no in-memory controller state is written (only the receiver of the scratch wrapper), and the scratch wrapper is built from ImmutableStateAt with the immutable account handler; (Q-2) every ledger read in a query handler is a tree read (Read / IterateReadAllItems) on the value returned by ImmutableLedgerAt(h) with h data-dependent on the request height, and vm_call's state comes from ImmutableStateAt(h) likewise; (Q-3) RigoApp.Query maps height 0 to the last committed height and its dispatch lists exactly the paths the controllers handle; (Q-4) no version of any tree is ever deleted or overwritten anywhere in the module. (Q-5) every historical read is served from a tree object of its own (a fresh iavl tree on the ledger's database, loaded at exactly the requested version, a load error is returned) under a fresh empty overlay — an iavl tree object remembers what was the latest version when it was opened, so it must not be shared between requests (C18 L-3). (Q-6) no function reachable from Query reads a controller field that block execution writes (candidate lists, validator sets, counters, the executing block context …): answers come from the immutable ledgers at the requested height, not from the in-memory state of the block that happens to be executing; the one listed exception is the last committed block context that supplies the default height. (Q-7) what a block committed is what the controllers made of the store's answers: a sentinel error that callers recognise by identity is handed back as itself (C18 L-5). (Q-9) building the historical tree of a query and committing a version on the same database exclude each other through the finality ledger's own mutex (C18 L-7). (Q-8) the stake controller's `stakes` query collects its answer by one scan over all delegatee records of the requested height and by nothing else. Q-6 also decides the ground of its exceptions: the fields queries read to resolve 'latest' (RigoApp.lastBlockCtx, EVMCtrler.lastBlockHeight, GovCtrler.GovParams) have a closed set of writers — the owner's Commit, after its ledger commits, and the start-up functions."
 	r.NotCovered = "the returned bytes; races with a running block (Query takes no application mutex); `stakes/voting_power` answers with the current governance limits (not in the property's list); tendermint's rpc core used by vm_call for the block time."
 
 	reach := w.queryReach()
@@ -799,6 +799,16 @@ var q6Exceptions = map[string]string{
 	"GovCtrler.GovParams":       "vm_call takes its execution environment (gas price, gas limits) from the active governance parameters; the state it reads is that of the requested height (ImmutableStateAt, E-5). The active parameters change only in Commit",
 }
 
+// q6CommitOnly: the excepted fields and the closed set of functions that assign them.
+var q6CommitOnly = []struct {
+	pkg, typ, field string
+	allowed         []string
+}{
+	{"node", "RigoApp", "lastBlockCtx", []string{"node.(*RigoApp).Commit", "node.(*RigoApp).Info", "node.NewRigoApp"}},
+	{"ctrlers/vm/evm", "EVMCtrler", "lastBlockHeight", []string{"evm.(*EVMCtrler).Commit", "evm.NewEVMCtrler"}},
+	{"ctrlers/gov", "GovCtrler", "GovParams", []string{"gov.(*GovCtrler).Commit", "gov.(*GovCtrler).InitLedger", "gov.NewGovCtrler"}},
+}
+
 // controller objects whose fields are process-wide state (a StateDBWrapper is
 // per block or per call: the one a query uses is built for that query, C17 E-5)
 var q6Owners = map[string]bool{"RigoApp": true, "AcctCtrler": true, "StakeCtrler": true, "GovCtrler": true, "EVMCtrler": true, "StakeLimiter": true}
@@ -865,6 +875,35 @@ func q6(w *World, r *Report, reach *Reach, scope []*ssa.Function) {
 			continue
 		}
 		r.Violate("Q-6", "reads:"+k, fmt.Sprintf("a query path reads %s, which block execution writes (%s): the answer depends on the block that is executing instead of the state committed at the requested height", k, written[k][0]), map[string]interface{}{"path": reach.Path(rs[0].fn)}, sites...)
+	}
+	// the exceptions rest on "assigned only at the commit point and at start-up":
+	// that is an obligation of its own (a query may arrive between any two calls
+	// of the consensus connection, also between EndBlock and Commit)
+	for _, e := range q6CommitOnly {
+		allowed := map[string]string{}
+		for _, a := range e.allowed {
+			allowed[a] = "commit point / start-up"
+		}
+		w.checkWriters(r, "Q-6", e.pkg, e.typ, e.field, allowed)
+		// inside Commit the assignment follows the ledgers' commit
+		if cm := w.Method(e.pkg, e.typ, "Commit"); cm != nil {
+			nSt := 0
+			bad := ""
+			for _, fs := range w.fieldStores(cm) {
+				if fs.Field.Name() != e.field || !namedIs(fs.Owner, absPkg(e.pkg), e.typ) {
+					continue
+				}
+				nSt++
+				for _, c := range CallsIn(cm) {
+					if callName(c.Common()) == "Commit" && instrReaches(fs.In, c) && !instrReaches(c, fs.In) {
+						bad = "the assignment at " + w.InstrPos(fs.In) + " precedes " + w.canonCall(c.Common(), 0)
+					}
+				}
+			}
+			if nSt > 0 {
+				r.Check(bad == "", "Q-6", e.typ+"."+e.field+":after-commit-point", "inside Commit the field is assigned after every ledger / controller commit of that function", "the field queries resolve 'latest' with is advanced before the state it names is committed: "+bad, fnSite(w, cm))
+			}
+		}
 	}
 	r.OK("Q-6", "scan", fmt.Sprintf("%d functions reachable from Query scanned against %d controller fields written by block execution", len(scope), len(written)))
 }
